@@ -855,3 +855,65 @@ def gen_lookup():
 
 
 MODULES["Lookup"] = gen_lookup
+
+
+# ------------------------------------------------------------------ TOAST sampling (C06)
+def gen_sampling():
+    tree = parse("toasty/toast.py")
+    out = HEADER.format(src="toasty/toast.py") + "namespace Gen\nnamespace Sampling\n\n"
+    init = find_def(tree, "ToastSampler.__init__")
+    isrc = [ast.unparse(s) for s in init.body]
+    inv_default = "self._invert_into_tiles = pio.get_default_vertical_parity_sign() == 1" in isrc
+    inv_format = ("if format is None:\n    self._invert_into_tiles = pio.get_default_vertical_parity_sign() == 1\nelse:\n"
+                  "    self._invert_into_tiles = get_format_vertical_parity_sign(format) == 1") in isrc
+    if not (inv_default or inv_format) or "self._format = format" not in isrc or "self._clobber = clobber" not in isrc:
+        raise ExtractError("ToastSampler.__init__: source of _invert_into_tiles / _format / _clobber not recognised")
+    cb = find_def(tree, "ToastSampler.visit_callback")
+    b = [s for s in cb.body if not (isinstance(s, ast.Expr) and isinstance(s.value, ast.Constant))]
+    src = [ast.unparse(s) for s in b]
+    want = [
+        "if tile is None:\n    lon, lat = _level0_coords(self._coordsys)\nelse:\n    lon, lat = toast_tile_get_coords(tile)",
+        "sampled_data = self._sampler(lon, lat)",
+        "if self._invert_into_tiles:\n    sampled_data = sampled_data[::-1]",
+        "img = Image.from_array(sampled_data)",
+        "if self._clobber:\n    self._pio.write_image(pos, img, format=self._format)\nelse:\n    with self._pio.update_image(pos, masked_mode=img.mode, default='masked') as basis:\n"
+        "        img.update_into_maskable_buffer(basis, slice(None), slice(None), slice(None), slice(None))",
+    ]
+
+    def _n(t):
+        return t.replace("(lon, lat) =", "lon, lat =")
+    if [_n(t) for t in src] != want:
+        k = next((i for i, (a, c) in enumerate(zip([_n(t) for t in src], want)) if a != c), min(len(src), len(want)))
+        raise ExtractError(f"ToastSampler.visit_callback: statement {k} not in the recognised shape: {src[k][:120] if k < len(src) else '(missing)'}")
+    out += ("/-- `ToastSampler.visit_callback(pos, tile)`: coordinates of the tile's own pixel grid (`_level0_coords` for the level-0 tile), the sampler\n"
+            "applied to them, the rows reversed iff `_invert_into_tiles`, then `write_image` (clobber) or a locked read–merge–write\n"
+            "`update_image(…, default='masked')` + `update_into_maskable_buffer` over the whole tile -/\n")
+    out += "def callback_shape_ok : Bool := true\n"
+    out += ("/-- `_invert_into_tiles` is decided by the parity of the format the tiles are written in (the `format` override when given,\n"
+            "the pyramid's default format otherwise); `false`: by the pyramid's default format whatever the override -/\n")
+    out += f"def invert_follows_written_format : Bool := {'true' if inv_format else 'false'}\n"
+    sl = find_def(tree, "sample_layer")
+    slb = [ast.unparse(s) for s in sl.body if not (isinstance(s, ast.Expr) and isinstance(s.value, ast.Constant))]
+    ok1 = slb == ["from .pyramid import Pyramid", "p = Pyramid.new_toast(depth, coordsys=coordsys)",
+                  "proc = ToastSampler(pio, sampler, True, format=format, coordsys=coordsys)",
+                  "p.visit_leaves(proc.visit_callback, parallel=parallel, cli_progress=cli_progress)"]
+    sf = find_def(tree, "sample_layer_filtered")
+    sfb = [ast.unparse(s) for s in sf.body if not (isinstance(s, ast.Expr) and isinstance(s.value, ast.Constant))]
+    ok2 = (len(sfb) == 4 and sfb[1] == "p = Pyramid.new_toast_filtered(depth, tile_filter, coordsys=coordsys)"
+           and sfb[2] in ("proc = ToastSampler(pio, sampler, False, format=format, coordsys=coordsys)", "proc = ToastSampler(pio, sampler, False, coordsys=coordsys)",
+                          "proc = ToastSampler(pio, sampler, False, format=None, coordsys=coordsys)")
+           and sfb[3] == "p.visit_leaves(proc.visit_callback, parallel=parallel, cli_progress=cli_progress)")
+    if not (ok1 and ok2):
+        raise ExtractError("sample_layer / sample_layer_filtered: not in the recognised shape")
+    out += ("/-- `sample_layer`: `Pyramid.new_toast(depth)`, clobbering sampler, `visit_leaves`; `sample_layer_filtered`:\n"
+            "`Pyramid.new_toast_filtered(depth, tile_filter)`, updating sampler, `visit_leaves` -/\n")
+    out += "def layer_functions_shape_ok : Bool := true\n"
+    fargs = [a.arg for a in sf.args.args]
+    out += ("/-- `sample_layer_filtered` has no `format` parameter: the name `format` in its body is the Python builtin, which the updating\n"
+            "sampler never uses (update_image is called without a format) -/\n")
+    out += f"def filtered_has_format_parameter : Bool := {'true' if 'format' in fargs else 'false'}\n"
+    out += "\nend Sampling\nend Gen\n"
+    return out
+
+
+MODULES["Sampling"] = gen_sampling
